@@ -4,7 +4,7 @@
 usage: tools/baseline.py [repo_root]
 exit 0 iff every test in BASELINE.stable_pass passed.
 """
-import json, os, subprocess, sys, tempfile
+import json, os, signal, subprocess, sys, tempfile
 import xml.etree.ElementTree as ET
 
 def main():
@@ -17,7 +17,8 @@ def main():
         subprocess.run(["/venv/bin/python", "-m", "pytest", "-q", "-p", "no:cacheprovider",
                         "--timeout=900", "--continue-on-collection-errors",
                         "--junitxml=" + path], cwd=repo, env=env,
-                       stdout=subprocess.DEVNULL, stderr=subprocess.DEVNULL)
+                       stdout=subprocess.DEVNULL, stderr=subprocess.DEVNULL,
+                       preexec_fn=lambda: signal.signal(signal.SIGINT, signal.SIG_DFL))
         passed = set()
         for tc in ET.parse(path).getroot().iter("testcase"):
             if not any(c.tag in ("failure", "error", "skipped") for c in tc):
